@@ -7,10 +7,11 @@ package cdata
 // independent copies. A sweep is not a proof; the result is reported as bounded.
 //
 // owvc-bounded: property=C02 pkg=data/cdata
-//   bulk-operations-rank-4-and-5 ranks 4 and 5, extents 1..4, 6 view kinds x 2 back-ends x 7 operations (ApplySlice, CopyFrom, AddTo, ApplyFunc1, Scale, Maximum/Minimum, Reshape+Unroll)
+//   bulk-operations-rank-4-and-5 ranks 4 and 5, extents 1..4, 40 parent shapes (800 in the thorough tier), 6 view kinds x 2 back-ends x 7 operations (ApplySlice, CopyFrom, AddTo, ApplyFunc1, Scale, Maximum/Minimum, Reshape+Unroll)
 
 import (
 	"fmt"
+	"os"
 	"testing"
 
 	"github.com/flowmatters/openwater-core/data"
@@ -68,7 +69,11 @@ func TestOwvcReplay(t *testing.T) {
 			bad = fmt.Sprintf(format, args...)
 		}
 	}
-	for trial := 0; trial < 40 && bad == ""; trial++ {
+	trials := 40
+	if os.Getenv("OWVC_THOROUGH") != "" { // thorough tier: twenty times as many parent shapes
+		trials = 800
+	}
+	for trial := 0; trial < trials && bad == ""; trial++ {
 		rank := 4 + trial%2
 		full := make([]int, rank)
 		for a := range full {
